@@ -8,6 +8,7 @@ CONSTANTS Names <- NamesCore
           Variants = {"fresh"}
           HarmTypes = {"file"}
           MaxEntries = 4
+          Reuse <- ReuseNone
           Devs = {"Dev_C38_DeferredMetaByPath"}
 INVARIANTS Confined
 CHECK_DEADLOCK FALSE
